@@ -304,9 +304,33 @@ def elim_build(seed, tier):
     nel = r.randint(1, min(3, len(names) - 1))
     elim = r.sample(names, nel)
     n = r.randint(1, 4)
-    kind = r.choice(["random", "chain", "bounded_ctx", "wrong_direction"])
+    kind = r.choice(["random", "chain", "bounded_ctx", "wrong_direction", "coupled", "coupled"])
     terms = [g.term(names, 1, 3) for _ in range(n)]
     ctx = []
+    if kind == "coupled" and len(names) >= 3:
+        # one term with two eliminated variables (either sign pattern), context rows that couple them with small or
+        # large off-diagonal coefficients of either sign, plus one-variable bounds, in random order (Kaykobad-type contexts)
+        e1, e2 = r.sample(names, 2)
+        rest = [x for x in names if x not in (e1, e2)]
+        elim = [e1, e2] if r.random() < 0.7 else [e2, e1]
+        s1, s2 = r.choice([1, -1]), r.choice([1, -1])
+        t = {g.Var(e1): s1 * float(r.choice([1, 1, 2])), g.Var(e2): s2 * float(r.choice([1, 1, 3]))}
+        if rest and r.random() < 0.8:
+            t[g.Var(r.choice(rest))] = float(r.choice([-1, 1, 2]))
+        terms = [g.PT(t, g.const())] + terms[: r.randint(0, 1)]
+        rows = []
+        for a, b_ in ((e1, e2), (e2, e1)):
+            for _ in range(r.randint(1, 2)):
+                k = r.random()
+                row = {g.Var(a): float(r.choice([1, -1, 2, -2]))}
+                if k < 0.6:
+                    row[g.Var(b_)] = float(r.choice([1, -1, 3, -3, 0.5, -0.5, 0.25]))
+                if rest and r.random() < 0.4:
+                    row[g.Var(r.choice(rest))] = float(r.choice([1, -1]))
+                rows.append(g.PT(row, g.const()))
+        ctx = rows
+        r.shuffle(ctx)
+        return {"op": "elim", "kind": kind, "terms": tl_data(terms), "context": tl_data(ctx), "elim": elim, "refine": r.random() < 0.5, "simplify": r.random() < 0.5, "order": r.choice([[1], [3], [1, 2, 3, 4], [1, 2, 3, 4, 5], [3, 1], [2, 1]])}
     for e in elim:
         k = r.random()
         if kind == "wrong_direction":
@@ -599,9 +623,9 @@ def merge_case(seed, tier):
 
 # ----------------------------------------------------------------------------------------------
 FAMILIES = {
-    "C01": [("compose_case", 1.0)],
+    "C01": [("compose_case", 0.7), ("elim_case", 0.3)],
     "C15": [("compose_case", 0.7), ("merge_case", 0.3)],
-    "C02": [("quotient_case", 1.0)],
+    "C02": [("quotient_case", 0.7), ("elim_case", 0.3)],
     "C04": [("elim_case", 1.0)],
     "C03": [("refines_case", 1.0)],
     "C07": [("simplify_case", 1.0)],
@@ -629,9 +653,11 @@ def run(prop, tier, seed, src, jobs):
         results += run_cases("monitors.m_algebra", fname, src, seeds, tier, jobs, budget * share + 5)
         rule.append(RULES[fname])
     # keep only violations of this property or of the cross-cutting ones observed here (C14/C13/C06 are reported by their own checks too)
+    # the elimination primitives are hypotheses of the C01 / C02 theorem chains: their violations break the chain
+    allowed = {prop} | ({"C04"} if prop in ("C01", "C02") else set())
     for r in results:
         v = r.get("violation")
-        if v and v.get("prop") != prop:
+        if v and v.get("prop") not in allowed:
             r["other_violation"] = v
             r["violation"] = None
     confirm(results, src)
